@@ -1,0 +1,164 @@
+//! Verification hooks. Compiled only with `--cfg brc20_verif`; never part of a normal build.
+//!
+//! * re-exports of crate-private items a conformance harness needs (H1)
+//! * persistent-write recorder and fail-point (H2)
+//! * lock-event recorder and pause point for `SharedData` (H3)
+#![allow(missing_docs)]
+
+use std::error::Error;
+use std::path::Path;
+use std::sync::atomic::{AtomicBool, Ordering};
+use std::sync::{Arc, Mutex};
+
+pub use crate::db::{BlockCachedDatabase, BlockHistoryCache, BlockHistoryCacheData};
+pub use crate::db::BlockDatabase;
+pub use crate::db::types::{Decode, Encode};
+pub use crate::db::Brc20ProgDatabase;
+pub use crate::engine::BRC20ProgEngine;
+pub use crate::global::{Brc20ProgConfig, CONFIG};
+
+/// Opens (or creates) the database directory and returns the full RPC method table, type erased.
+pub fn open_rpc_module(db_path: &Path) -> Result<jsonrpsee::server::Methods, Box<dyn Error>> {
+    let engine = BRC20ProgEngine::new(Brc20ProgDatabase::new(db_path)?);
+    Ok(crate::server::verif_rpc_methods(engine))
+}
+
+/// Replaces the process-global configuration.
+pub fn set_config(config: Brc20ProgConfig) {
+    CONFIG.write_fn_unchecked(|value| {
+        *value = config;
+    });
+}
+
+// ---------------------------------------------------------------------------------------------
+// H2: persistent writes
+
+#[derive(Clone, Debug)]
+pub struct PersistEvent {
+    pub seq: u64,
+    pub table: String,
+    pub row: &'static str,
+    pub op: &'static str,
+}
+
+#[derive(Default)]
+struct PersistState {
+    seq: u64,
+    fail_at: Option<u64>,
+    abort: bool,
+    log: Vec<PersistEvent>,
+}
+
+static PERSIST_ON: AtomicBool = AtomicBool::new(false);
+static PERSIST: Mutex<Option<PersistState>> = Mutex::new(None);
+
+/// Starts recording persistent writes; `fail_at = Some(i)` makes the i-th write (1-based) fail
+/// *before* it is performed, either by returning `Err` or, with `abort`, by aborting the process.
+pub fn persist_start(fail_at: Option<u64>, abort: bool) {
+    let mut guard = PERSIST.lock().unwrap_or_else(|e| e.into_inner());
+    *guard = Some(PersistState {
+        seq: 0,
+        fail_at,
+        abort,
+        log: Vec::new(),
+    });
+    PERSIST_ON.store(true, Ordering::SeqCst);
+}
+
+/// Stops recording and returns what was recorded.
+pub fn persist_stop() -> Vec<PersistEvent> {
+    PERSIST_ON.store(false, Ordering::SeqCst);
+    let mut guard = PERSIST.lock().unwrap_or_else(|e| e.into_inner());
+    guard.take().map(|s| s.log).unwrap_or_default()
+}
+
+/// Called in front of every RocksDB put/delete/flush of the database layer.
+pub fn persist(table: &str, row: &'static str, op: &'static str) -> Result<(), Box<dyn Error>> {
+    if !PERSIST_ON.load(Ordering::Relaxed) {
+        return Ok(());
+    }
+    let mut guard = PERSIST.lock().unwrap_or_else(|e| e.into_inner());
+    let Some(state) = guard.as_mut() else {
+        return Ok(());
+    };
+    state.seq += 1;
+    let seq = state.seq;
+    if let Some(fail_at) = state.fail_at {
+        if seq >= fail_at {
+            if state.abort {
+                std::process::abort();
+            }
+            return Err("injected crash".into());
+        }
+    }
+    state.log.push(PersistEvent {
+        seq,
+        table: table.to_string(),
+        row,
+        op,
+    });
+    Ok(())
+}
+
+// ---------------------------------------------------------------------------------------------
+// H3: lock events
+
+#[derive(Clone, Debug)]
+pub struct LockEvent {
+    pub thread: u64,
+    pub lock: &'static str,
+    /// ReqR, AcqR, RelR, ReqW, AcqW, RelW
+    pub kind: &'static str,
+    pub loc: String,
+}
+
+type LockCallback = Arc<dyn Fn(&LockEvent) + Send + Sync>;
+
+static LOCK_ON: AtomicBool = AtomicBool::new(false);
+static LOCK_LOG: Mutex<Vec<LockEvent>> = Mutex::new(Vec::new());
+static LOCK_CB: Mutex<Option<LockCallback>> = Mutex::new(None);
+
+fn thread_id() -> u64 {
+    // ThreadId::as_u64 is unstable; the Debug form is "ThreadId(N)"
+    let s = format!("{:?}", std::thread::current().id());
+    s.trim_start_matches("ThreadId(")
+        .trim_end_matches(')')
+        .parse()
+        .unwrap_or(0)
+}
+
+pub fn lock_trace_start(callback: Option<LockCallback>) {
+    LOCK_LOG.lock().unwrap_or_else(|e| e.into_inner()).clear();
+    *LOCK_CB.lock().unwrap_or_else(|e| e.into_inner()) = callback;
+    LOCK_ON.store(true, Ordering::SeqCst);
+}
+
+pub fn lock_trace_stop() -> Vec<LockEvent> {
+    LOCK_ON.store(false, Ordering::SeqCst);
+    *LOCK_CB.lock().unwrap_or_else(|e| e.into_inner()) = None;
+    std::mem::take(&mut *LOCK_LOG.lock().unwrap_or_else(|e| e.into_inner()))
+}
+
+pub fn lock_trace_take() -> Vec<LockEvent> {
+    std::mem::take(&mut *LOCK_LOG.lock().unwrap_or_else(|e| e.into_inner()))
+}
+
+pub fn lock_event(lock: &'static str, kind: &'static str, loc: &std::panic::Location<'_>) {
+    if !LOCK_ON.load(Ordering::Relaxed) {
+        return;
+    }
+    let event = LockEvent {
+        thread: thread_id(),
+        lock,
+        kind,
+        loc: format!("{}:{}", loc.file(), loc.line()),
+    };
+    LOCK_LOG
+        .lock()
+        .unwrap_or_else(|e| e.into_inner())
+        .push(event.clone());
+    let callback = LOCK_CB.lock().unwrap_or_else(|e| e.into_inner()).clone();
+    if let Some(callback) = callback {
+        callback(&event);
+    }
+}
